@@ -10,10 +10,16 @@ package main
 
 import (
 	"bytes"
+	"context"
 	"fmt"
+	"github.com/atlassian/gostatsd"
+	"github.com/atlassian/gostatsd/pkg/statsd"
+	"github.com/sirupsen/logrus"
+	"io"
 	"os"
 	"strconv"
 	"strings"
+	"sync"
 
 	"verifharness/internal/hx"
 	"verifharness/internal/lexcase"
@@ -378,7 +384,82 @@ func runOne(c string) (out string) {
 	if msg != "" {
 		fmt.Fprintf(os.Stderr, "panic on %s: %s\n", hx.B(line), msg)
 	}
+	if strings.HasPrefix(out, "M ") && !bytes.ContainsAny(line, "\n\x00") {
+		if d := parserPass(ns, line, out); d != "" {
+			out += " PARSER-DIFF " + d
+		}
+	}
 	return out
+}
+
+// ---- the same line through the parser's per-datagram routine -------------------------------------------------
+//
+// What the lexer yields travels on through DatagramParser.handleDatagram, which sets time and source and, with
+// ignore-host, turns the first host: tag into the source.  The metric it hands back must still carry the lexer's
+// fields and tags, in order (the MetricMap it is folded into next sorts the tags, so this is the last place where
+// their order can be seen).
+
+var (
+	parserMu sync.Mutex
+	parsers  = map[string]*statsd.DatagramParser{}
+)
+
+type nullHandler struct{}
+
+func (nullHandler) DispatchMetricMap(context.Context, *gostatsd.MetricMap) {}
+func (nullHandler) DispatchEvent(context.Context, *gostatsd.Event)         {}
+func (nullHandler) EstimatedTags() int                                     { return 0 }
+func (nullHandler) WaitForEvents()                                         {}
+
+func parserFor(ns string, ignoreHost bool) *statsd.DatagramParser {
+	parserMu.Lock()
+	defer parserMu.Unlock()
+	key := fmt.Sprintf("%v\x00%s", ignoreHost, ns)
+	if p, ok := parsers[key]; ok {
+		return p
+	}
+	lg := logrus.New()
+	lg.SetOutput(io.Discard)
+	p := statsd.NewDatagramParser(make(chan []*statsd.Datagram), ns, ignoreHost, 0, nullHandler{}, 0, false, lg)
+	parsers[key] = p
+	return p
+}
+
+func parserPass(ns string, line []byte, lexOut string) (diff string) {
+	defer func() {
+		if e := recover(); e != nil {
+			diff = fmt.Sprintf("panic:%v", e)
+		}
+	}()
+	toks := strings.Fields(lexOut)
+	if len(toks) < 6 {
+		return ""
+	}
+	head, tags := toks[:6], toks[6:]
+	for _, ih := range []bool{false, true} {
+		ms, _, bad := parserFor(ns, ih).VerifHandleDatagram(context.Background(), 77, "192.0.2.7", append([]byte(nil), line...))
+		if bad != 0 || len(ms) != 1 {
+			return fmt.Sprintf("ignore-host=%v:metrics=%d,bad=%d", ih, len(ms), bad)
+		}
+		wantTags, wantSrc := tags, "192.0.2.7"
+		if ih {
+			wantSrc = ""
+			wantTags = nil
+			taken := false
+			for _, t := range tags {
+				if raw := hx.MustUnS(t); !taken && strings.HasPrefix(raw, "host:") {
+					wantSrc, taken = raw[5:], true
+					continue
+				}
+				wantTags = append(wantTags, t)
+			}
+		}
+		want := strings.Join(append(append([]string{}, head...), wantTags...), " ")
+		if got := lexcase.RenderMetric(ms[0]); got != want || string(ms[0].Source) != wantSrc || ms[0].Timestamp != 77 {
+			return fmt.Sprintf("ignore-host=%v:fields,tags-in-order,source-or-time-differ", ih)
+		}
+	}
+	return ""
 }
 
 func main() {
